@@ -39,7 +39,7 @@ brute-force enumeration, only generalised to flat lists of selected outputs:
     passed as plain functions; MSE / L1 also as plain functions instead of torch modules;
   * float32 models / targets (only where every sum stays below 2**24 and the number of selected outputs
     is a power of two, i.e. where float32 is still exact), mixed target / model dtypes;
-  * X of dtype uint8 / int16 / int32 / int64 / float64, X handed over as a non-contiguous view;
+  * X of dtype int64 / float64, X handed over as a non-contiguous view;
   * motif lists with a duplicated motif, with a motif that is already present in the sequence (a no-op
     candidate with improvement 0), ordered longest first, given as a tuple;
   * `alphabet` / `batch_size` left to their defaults, verbose=True (output swallowed; it must not change
@@ -69,13 +69,13 @@ import torch
 from tangermeme.design import greedy_substitution
 
 SCOPE = {
-    'quick': '2400 seeded random cases: sequence length 8-40 (length 8 over-weighted so that motifs of length 8 fit only at position 0), '
+    'quick': '2200 seeded random cases: sequence length 8-40 (length 8 over-weighted so that motifs of length 8 fit only at position 0), '
              '1-5 motifs of length 1-8 over alphabets of 2-5 letters (ACGT mostly), integer relu / linear models with 1-8 outputs, masks selecting '
              '1-8 outputs, MSE and L1 loss, tol in {0, 1e-3, 0.25, 0.5, 1, 2, exact first improvement}, max_iter in {-1, 0, 1, 2, 3, 4}, batch sizes 1-64, '
              'int8 / float32 X; targets: random, or the model output with a motif planted at the LAST fitting position / the first position / a random position, '
-             'or with 2-4 motifs planted (multi-step paths); interleaved with 1600 extended cases: models with (n_out, T) profile outputs (T 2-8) and channel masks, '
+             'or with 2-4 motifs planted (multi-step paths); interleaved with 1400 extended cases: models with (n_out, T) profile outputs (T 2-8) and channel masks, '
              'models blind to a stretch of positions (exact zero-improvement candidates), asymmetric / negative-valued / plain-function losses, float32 models and targets '
-             '(exact range only) and mixed dtypes, X of dtype uint8/int16/int32/int64/float64 and non-contiguous X, duplicated / already-present / longest-first / tuple motif lists, '
+             '(exact range only) and mixed dtypes, X of dtype int64/float64 and non-contiguous X, duplicated / already-present / longest-first / tuple motif lists, '
              'default alphabet and batch_size, verbose=True, tol at / one quantum below / one quantum above the exact improvement of step 1-5 of the reference path',
     'thorough': 'as quick with 24000 + 16000 seeded random cases',
 }
@@ -471,7 +471,7 @@ def _gen(g, k):
     return case
 
 
-_XDTYPES = ['int8', 'uint8', 'int16', 'int32', 'int64', 'float32', 'float64']
+_XDTYPES = ['int8', 'int8', 'float32', 'int64', 'float64']   # every further dtype costs one numba compilation of _fast_tile_substitute (~1 s)
 
 
 def _ref_improvements(case, net, n=5):
@@ -632,7 +632,7 @@ def run(rep):
     if FULL_SHAPE_MASK_ON_PROFILE_OUTPUTS:
         for k in range(600 if thorough else 60):
             _one(rep, ('m', k), _gen_ext(g, k, mask2d=True), None, 'ext-')
-    n_old, n_ext = (24000, 16000) if thorough else (2400, 1600)
+    n_old, n_ext = (24000, 16000) if thorough else (2200, 1400)
     ko = kx = i = 0
     while ko < n_old or kx < n_ext:
         if rep.out_of_time():
